@@ -23,6 +23,11 @@ META["C09"] = dict(
     note="Trusted: Lean kernel; the expression translator (validated each run by evaluating the generated expressions against the real accessors on generated contents/values); the pinned layout table; Go reflection in the harness. Iei/Len plain-field accessors are recognised structurally (not bit fields). DNN.GetDNN/SetDNN is a text conversion (C14).",
     technique="Lean 4 proof: verified symbolic bit executor + decide over accessors regenerated from nasType; Go/Lean correspondence")
 
+META["C04"] = dict(
+    text="Kernel-checked: the tables extracted from the 90 generated functions on this run, read in TS vocabulary (format, IEI, admissible lengths), equal the pinned TS 24.501 tables (`decide`); for every such table the encoder's output equals the independent TS 24.007 renderer (`encode_layout`), the decoder's accept set and field values equal the independent table-driven decoder's (`decode_agree`: any order, last duplicate wins, lengths within bounds), and everything else is an error (`decode_rejects`). The real code is additionally compared with the pinned spec decoder/renderer directly on every run.",
+    note=CODEC_NOTE + " Pinned Spec/Tables.lean (reviewed against TS 24.501 V15.7) and Spec/Msg.lean (TS 24.007 framing) are the top of the trust chain.",
+    technique="Lean 4 proof (encoder = spec renderer, decoder = spec table-driven decoder, tables = pinned tables by decide) + direct Go-vs-spec differential run")
+
 NOT_APPLICABLE = {
  "C01": "check not built yet in this round (Lean model + correspondence planned, see DESIGN.md section 4); not claimed until it runs",
  "C02": "check not built yet in this round (Lean model + correspondence planned, see DESIGN.md section 4); not claimed until it runs",
